@@ -71,6 +71,8 @@ func printEx(e *Ex, r *rng, extra int) string {
 		return wrap(c, c.Op == "cond") + " ? " + wrap(a, false) + " : " + wrap(b, false)
 	case "paren":
 		return "(" + printEx(e.Kids[0], r, extra) + ")"
+	case "call":
+		return e.Text + "()"
 	}
 	return e.Text
 }
@@ -136,6 +138,10 @@ func (v rv) sprint() string {
 	return "?"
 }
 
+// call log and first failure cause of the reference evaluation in progress (the harness is single-threaded)
+var refLog []string
+var refCause string
+
 var rErr = rv{k: 'E'}
 var rUnspec = rv{k: 'U'}
 
@@ -162,7 +168,30 @@ func refEval(e *Ex, env map[string]rv) rv {
 		if v, ok := env[e.Text]; ok {
 			return v
 		}
+		if refCause == "" {
+			refCause = "nosuch"
+		}
 		return rErr
+	case "call": // user function without arguments: logged; ferr fails with the sentinel, fpanic panics
+		if !strings.Contains(e.Text, ".") {
+			refLog = append(refLog, e.Text) // methods of the harness types do not log
+		}
+		switch e.Text {
+		case "ferr", "st.Fail":
+			if refCause == "" {
+				refCause = "sentinel"
+			}
+			return rErr
+		case "fpanic":
+			if refCause == "" {
+				refCause = "panic"
+			}
+			return rErr
+		}
+		if v, ok := env[e.Text+"()"]; ok {
+			return v
+		}
+		return rUnspec
 	case "paren":
 		return refEval(e.Kids[0], env)
 	case "un":
